@@ -32,6 +32,10 @@ ASSIGN = [[Fraction(3, 2), Fraction(-2, 3), Fraction(5, 4), Fraction(7, 3), Frac
 NAMES = ['u2', 'u10', 'u1', 'u11', 'u3', 'u20', 'u12', 'u4', 'u30', 'u13', 'u5', 'u40', 'u14', 'u6', 'u50', 'u15']
 
 
+# symbol names that coincide with identifiers of the generated source itself (parameters, temporaries of the cse pass)
+NAMES_CLASH = ['y', 'x', 'B', 'A', 'b', 'a', 'x1', 'x0', 'args', 'X', 'Y', 'x2', 'kwargs', 'e', 'x10', 'mv']
+
+
 MAIN = spaces.cfg_pqr(2, 0, 0)
 
 
@@ -46,6 +50,10 @@ def shards(tier, seed):
     sh += mk('norm / normalized of single blades at a negative value (nested powers must not be denested)', main, 'un', ('S', 1), ('B',), 1, ops=['norm', 'normalized'], assign=1)
     sh += mk('Algebra(2): binary operators x subsets <=2 blades x 4 right operands x all partitions (k<=4)', main, 'bin', ('S', 2), right4, 11)
     sh += mk('string coefficients and ordered tuples (gp, sw, add, div)', main, 'bin', ('T', 2), ('list', [[2, 1], [3]]), 4, ops=['gp', 'sw', 'add', 'div'], strings=True)
+    sh += mk('symbols named like identifiers of the generated source (x, y, A, B, a, b, x0, x1, args ..): 8 operators x subsets <=2 blades x 4 right operands x all partitions',
+             main, 'bin', ('S', 2), right4, 6, ops=['gp', 'sw', 'add', 'div', 'op', 'rp', 'proj', 'cp'], clash=True)
+    sh += mk('symbols named like identifiers of the generated source (x, y, A, B, a, b, x0, x1, args ..): 8 operators x subsets <=2 blades x 4 right operands x all partitions',
+             main, 'un', ('S', None), ('B',), 2, ops=['reverse', 'inv', 'normsq', 'hodge', 'outerexp', 'sqrt'], clash=True)
     sh.append(dict(stratum='call history: 18 symbolic multivectors of one key pattern called one after the other (two orders)', cfg=main, kind='callhist'))
     sh.append(dict(stratum='call history: 18 symbolic multivectors of one key pattern called one after the other (two orders)', cfg=spaces.cfg_pqr(2, 0, 1), kind='callhist'))
     others = [spaces.cfg_pqr(1, 0, 1), spaces.cfg_pqr(1, 1, 0)] if tier == 'quick' else [spaces.cfg_sig(s) for s in spaces.sig(2)[1:]]
@@ -146,7 +154,7 @@ def run_shard(shard):
                 for key in ks:
                     v = A[pos % len(A)]
                     if part[pos]:
-                        nm = NAMES[pos % len(NAMES)]
+                        nm = (NAMES_CLASH if shard.get('clash') else NAMES)[pos % len(NAMES)]
                         if shard.get('strings') and pos % 2 == 0:
                             vs.append(nm)            # string coefficient, sympified by the constructor
                         else:
